@@ -77,7 +77,8 @@ func CheckFastlyVCLLimitation(vcl string) error {
 }
 
 // CheckFastlyCallTreeLimit emulates Fastly's compile-time check on the fully
-// inlined subroutine call graph. Fastly inlines every `call` statement, so a
+// inlined subroutine call graph. Fastly inlines every `call` statement and every
+// call of a functional subroutine in an expression, so a
 // subroutine that calls another many times multiplies the callee's whole
 // subtree. When the expansion of any subroutine exceeds MaxSubroutineCallTree,
 // activation fails with "Too many sub calls".
@@ -109,8 +110,15 @@ func CheckFastlyCallTreeLimit(ctx *context.Context) error {
 		}
 		visiting[name] = true
 		var total int
-		for _, call := range collectCallStatements(sub.Block) {
+		calls := collectSubroutineCalls(sub.Block)
+		for _, call := range calls.statements {
 			total += 1 + cost(call.Subroutine.Value)
+		}
+		// A functional subroutine called in an expression expands as well as a `call` statement
+		for _, call := range calls.expressions {
+			if _, ok := ctx.SubroutineFunctions[call.Function.Value]; ok {
+				total += 1 + cost(call.Function.Value)
+			}
 		}
 		visiting[name] = false
 		costs[name] = total
@@ -135,35 +143,67 @@ func CheckFastlyCallTreeLimit(ctx *context.Context) error {
 	return nil
 }
 
-// collectCallStatements returns every `call` statement reachable inside a
-// subroutine block, descending into nested if/else and switch blocks.
-func collectCallStatements(block *ast.BlockStatement) []*ast.CallStatement {
+// subroutineCalls holds the subroutine calls reachable inside a subroutine block:
+// `call` statements and function call expressions, which may call a functional subroutine.
+type subroutineCalls struct {
+	statements  []*ast.CallStatement
+	expressions []*ast.FunctionCallExpression
+}
+
+// collectSubroutineCalls returns every `call` statement and every function call
+// expression reachable inside a subroutine block, descending into nested if/else
+// and switch blocks and into the expressions of each statement.
+func collectSubroutineCalls(block *ast.BlockStatement) *subroutineCalls {
+	calls := &subroutineCalls{}
 	if block == nil {
-		return nil
+		return calls
 	}
-	var calls []*ast.CallStatement
-	walkCallStatements(block.Statements, &calls)
+	walkCallStatements(block.Statements, calls)
 	return calls
 }
 
-func walkCallStatements(statements []ast.Statement, calls *[]*ast.CallStatement) {
+func walkCallStatements(statements []ast.Statement, calls *subroutineCalls) {
 	for _, stmt := range statements {
 		switch t := stmt.(type) {
 		case *ast.CallStatement:
-			*calls = append(*calls, t)
+			calls.statements = append(calls.statements, t)
+			walkCallExpressions(calls, t.Arguments...)
 		case *ast.BlockStatement:
 			walkCallStatements(t.Statements, calls)
 		case *ast.IfStatement:
 			walkIfCallStatements(t, calls)
 		case *ast.SwitchStatement:
+			if t.Control != nil {
+				walkCallExpressions(calls, t.Control.Expression)
+			}
 			for _, c := range t.Cases {
+				if c.Test != nil {
+					walkCallExpressions(calls, c.Test)
+				}
 				walkCallStatements(c.Statements, calls)
 			}
+		case *ast.SetStatement:
+			walkCallExpressions(calls, t.Value)
+		case *ast.AddStatement:
+			walkCallExpressions(calls, t.Value)
+		case *ast.LogStatement:
+			walkCallExpressions(calls, t.Value)
+		case *ast.SyntheticStatement:
+			walkCallExpressions(calls, t.Value)
+		case *ast.SyntheticBase64Statement:
+			walkCallExpressions(calls, t.Value)
+		case *ast.ErrorStatement:
+			walkCallExpressions(calls, t.Code, t.Argument)
+		case *ast.ReturnStatement:
+			walkCallExpressions(calls, t.ReturnExpression)
+		case *ast.FunctionCallStatement:
+			walkCallExpressions(calls, t.Arguments...)
 		}
 	}
 }
 
-func walkIfCallStatements(stmt *ast.IfStatement, calls *[]*ast.CallStatement) {
+func walkIfCallStatements(stmt *ast.IfStatement, calls *subroutineCalls) {
+	walkCallExpressions(calls, stmt.Condition)
 	if stmt.Consequence != nil {
 		walkCallStatements(stmt.Consequence.Statements, calls)
 	}
@@ -172,6 +212,26 @@ func walkIfCallStatements(stmt *ast.IfStatement, calls *[]*ast.CallStatement) {
 	}
 	if stmt.Alternative != nil && stmt.Alternative.Consequence != nil {
 		walkCallStatements(stmt.Alternative.Consequence.Statements, calls)
+	}
+}
+
+func walkCallExpressions(calls *subroutineCalls, expressions ...ast.Expression) {
+	for _, expr := range expressions {
+		switch t := expr.(type) {
+		case *ast.FunctionCallExpression:
+			calls.expressions = append(calls.expressions, t)
+			walkCallExpressions(calls, t.Arguments...)
+		case *ast.InfixExpression:
+			walkCallExpressions(calls, t.Left, t.Right)
+		case *ast.PrefixExpression:
+			walkCallExpressions(calls, t.Right)
+		case *ast.PostfixExpression:
+			walkCallExpressions(calls, t.Left)
+		case *ast.GroupedExpression:
+			walkCallExpressions(calls, t.Right)
+		case *ast.IfExpression:
+			walkCallExpressions(calls, t.Condition, t.Consequence, t.Alternative)
+		}
 	}
 }
 
